@@ -149,24 +149,25 @@ var targets = []target{
 		procs: sessProcs,
 	}},
 	{"Listener", "AcceptKCP", "accept_skel", "FAcceptKCP", &dict{
-		stmts: map[string]string{
-			"var timeout <-chan time.Time":                  "SCall PNop",
-			"timer := time.NewTimer(time.Until(tdeadline))": "SCall (PTimerNew LRD)",
-			"defer timer.Stop()":                            "SCall PDeferTimerStop",
-			"timeout = timer.C":                             "SAssign VC ETimerC",
-		},
-		conds: map[string]string{
-			"tdeadline, ok := l.rd.Load().(time.Time); ok && !tdeadline.IsZero()": "CDeadlineSet LRD",
-		},
+		stmts: merge(timerStmts, map[string]string{
+			"timeout = time.NewTimer(time.Until(tdeadline))": "SCall (PTimerNew LRD)",
+			"timeout.Reset(time.Until(tdeadline))":           "SCall (PTimerReset LRD)",
+		}),
+		conds: merge(timerConds, map[string]string{
+			"tdeadline, ok := l.rd.Load().(time.Time); ok && !tdeadline.IsZero()":                                 "CDeadlineSet LRD",
+			"tdeadline, ok := l.rd.Load().(time.Time); !ok || tdeadline.IsZero() || time.Now().Before(tdeadline)": "CDeadlineNotDue LRD",
+		}),
 		comms: map[string]string{
-			"<-timeout":             "RcvC",
-			"c := <-l.chAccepts":    "RcvAccept",
+			"<-l.chDeadlineEvent":   "RcvLEvent",
+			"<-c":                   "RcvC",
+			"<-timeout.C":           "RcvTimerC",
+			"s := <-l.chAccepts":    "RcvAccept",
 			"<-l.chSocketReadError": "RcvLErr",
 			"<-l.die":               "RcvLDie",
 		},
 		rets: map[string]string{
 			"return nil, errors.WithStack(errTimeout)": "RTimeout",
-			"return c, nil": "RAccepted",
+			"return s, nil": "RAccepted",
 			"return nil, l.socketReadError.Load().(error)":   "RSockErr",
 			"return nil, errors.WithStack(io.ErrClosedPipe)": "RClosed",
 		},
@@ -263,6 +264,7 @@ var targets = []target{
 	}},
 	{"Listener", "SetReadDeadline", "l_set_read_deadline_skel", "FLSetReadDeadline", &dict{
 		stmts: map[string]string{"l.rd.Store(t)": "SCall (PStore LRD)"},
+		comms: map[string]string{"l.chDeadlineEvent <- struct{}{}": "SndLEvent"},
 		rets:  map[string]string{"return nil": "RNil"},
 	}},
 	{"Listener", "SetWriteDeadline", "l_set_write_deadline_skel", "FLSetWriteDeadline", &dict{
